@@ -3,6 +3,7 @@ package ircomp
 import (
 	"github.com/arnodel/golua/code"
 	"github.com/arnodel/golua/ir"
+	"math"
 )
 
 type ConstantCompiler struct {
@@ -70,6 +71,10 @@ func (kc *ConstantCompiler) ProcessCode(c ir.Code) {
 		instr.ProcessInstr(ic)
 	}
 	end := kc.builder.Offset()
+	if end-start > math.MaxInt16 {
+		// The program counter and the jump offsets are 16 bit signed integers.
+		panic(newPanic("function too large (more than 32767 instructions)"))
+	}
 	kc.addCompiled(code.Code{
 		Name:         c.Name,
 		StartOffset:  start,
